@@ -195,7 +195,20 @@ func RunLatch(seed int64, dur time.Duration) (out []Ev) {
 				return seen[i][0] < seen[j][0] || (seen[i][0] == seen[j][0] && seen[i][1] < seen[j][1])
 			})
 			total += len(seen)
-			w.T.Log(Ev{"e": "lread", "how": how, "o": o, "seen": seen, "reads": int(atomic.LoadInt64(&reads))})
+			// lossless run-length form of the sorted set: [a, b, s, n] stands for the n triples (a+i, b+2i, s+i), i < n
+			// (a long run reads hundreds of thousands of versions per row; listing each made traces of 100+ MB)
+			runs := [][4]int{}
+			for _, t := range seen {
+				if k := len(runs) - 1; k >= 0 {
+					r := &runs[k]
+					if t[0] == r[0]+r[3] && t[1] == r[1]+2*r[3] && t[2] == r[2]+r[3] {
+						r[3]++
+						continue
+					}
+				}
+				runs = append(runs, [4]int{t[0], t[1], t[2], 1})
+			}
+			w.T.Log(Ev{"e": "lread", "how": how, "o": o, "runs": runs, "distinct": len(seen), "reads": int(atomic.LoadInt64(&reads))})
 		}
 	}
 	_ = rnd
